@@ -1,5 +1,6 @@
 import GapicModel.Model.Names
 import GapicModel.Pinned.Funcs
+import GapicModel.Lemmas.AddressT
 /-
 C12 — reserved-word and colliding names are disambiguated without altering the wire.
 -/
@@ -299,5 +300,44 @@ theorem clientMethodName_is_translated (w : String) :
     simp [h']
 
 end TranslatedMethodName
+
+/-! ## `Address` naming over the method bodies translated from the current source (Model/AddressT.lean, Lemmas/AddressT.lean)
+
+These are stated about `Pinned.Funcs.address_*`, the translations of `Address.__str__`, `module_alias`, `python_import`, … as they
+stand in /repo (bridged by `rfl` to the translation of the current tree on every run), composed the way the properties call each
+other — not about a hand-written model: a change of one of those method bodies breaks the bridge lemma named after it. -/
+section TranslatedAddress
+open GapicModel.Model.AddressT GapicModel.Lemmas.AddressT GapicModel.PyRt GapicModel.Pinned.Funcs
+
+/-- **the import binds the name the references use**, for every address and naming, in all four import branches -/
+theorem translated_import_binds_reference_name (a : Addr) (hm : truthy a.module = true) (hn : NamingInv a.naming) :
+    str a = join ['.'] ([bound (pythonImport a)] ++ a.parent ++ [a.name]) :=
+  import_binds_str_head a hm hn
+
+/-- there is an alias exactly when the module name collides with a name of the file or is reserved, and it is `<initials>_<module>` -/
+theorem translated_alias_iff_collision (m : Str) (c pk : List Str) (v : Str) :
+    (address_module_alias m c pk v = [] ∧ (strIn m c || strIn m (Pinned.reservedNames.map String.toList)) = false) ∨
+    (∃ ini, address_module_alias m c pk v = ini ++ ['_'] ++ m ∧ (strIn m c || strIn m (Pinned.reservedNames.map String.toList)) = true) :=
+  module_alias_shape m c pk v
+
+/-- an alias never equals the module name it replaces -/
+theorem translated_alias_frees_the_name (m : Str) (c pk : List Str) (v : Str) (h : address_module_alias m c pk v ≠ []) :
+    address_module_alias m c pk v ≠ m :=
+  module_alias_ne_module m c pk v h
+
+/-- `module_alias` raises for no input (since a6e34e6; before it the statement was false: `lib_`, `a__b`) -/
+theorem translated_alias_never_raises (m : Str) (c pk : List Str) (v : Str) : address_module_alias_ok m c pk v = true :=
+  module_alias_never_raises m c pk v
+
+/-- non-vacuity: a colliding dependency module gets its alias on the import and in the reference; a `_pb2` dependency does not -/
+example :
+    let n : NamingV := ⟨true, "acme.lib.v1".toList, "v1".toList, ["acme".toList], "lib_v1".toList, ["acme.dep.v1".toList]⟩
+    let d : Addr := ⟨"Mark".toList, "common".toList, ["acme".toList, "dep".toList, "v1".toList], [], ["common".toList], n⟩
+    let g : Addr := ⟨"Timestamp".toList, "timestamp".toList, ["google".toList, "protobuf".toList], [], [], n⟩
+    str d = "ad_common.Mark".toList ∧ bound (pythonImport d) = "ad_common".toList ∧
+    (pythonImport d).package = ["acme".toList, "dep_v1".toList, "types".toList] ∧
+    str g = "timestamp_pb2.Timestamp".toList ∧ bound (pythonImport g) = "timestamp_pb2".toList := by decide
+
+end TranslatedAddress
 
 end GapicModel.Props.C12
